@@ -9,6 +9,6 @@ import Dtr.Props.C01
 #print axioms Dtr.C01_entry_single
 #print axioms Dtr.C01_framedmap_refines_scopes
 #print axioms Dtr.C01_scopes_restored
-#print axioms Dtr.C01_noAssign_keeps_counter
 #print axioms Dtr.C01_for_loop
 #print axioms Dtr.C01_loop_is_for
+#print axioms Dtr.ForRun_count
